@@ -526,6 +526,10 @@ func (fr *Frame) analyzeLoops() {
 		best := 1<<30 + h.Index
 		for b := range fr.loops[h].blocks {
 			for _, in := range b.Instrs {
+				// a phi carries the position of its variable's declaration, which lies before the loop
+				if _, isPhi := in.(*ssa.Phi); isPhi {
+					continue
+				}
 				if p := in.Pos(); p != token.NoPos && int(p) < best {
 					best = int(p)
 				}
